@@ -948,3 +948,17 @@ Proof.
 Qed.
 Lemma cropped_next_total s : 0 <= cs_x s <= 4294967294 -> 0 <= cs_y s -> cs_h s <= 4294967295 -> cropped_next_ok s = true.
 Proof. intros. unfold cropped_next_ok. sites; zb; rng. Qed.
+
+(* =========================================================================================== *)
+(* The tie: every function of the regenerated site table is modelled against its current skeleton, *)
+(* literal-only, or explicitly unmodelled (reflection over Gen/ArithSites.v)                       *)
+(* =========================================================================================== *)
+From EG Require Gen.ArithSites.
+Lemma sites_covered_all : forallb site_covered Gen.ArithSites.arith_sites = true.
+Proof. vm_compute. reflexivity. Qed.
+Lemma sites_covered : forall row, In row Gen.ArithSites.arith_sites -> site_covered row = true.
+Proof. apply forallb_forall. exact sites_covered_all. Qed.
+Lemma records_all_live : records_live Gen.ArithSites.arith_sites = true.
+Proof. vm_compute. reflexivity. Qed.
+Lemma no_std_scan : Gen.ArithSites.no_std_scan_passed = true.
+Proof. reflexivity. Qed.
